@@ -11,6 +11,7 @@
 package main
 
 import (
+	"fmt"
 	"io"
 	"log"
 	"math/rand"
@@ -49,6 +50,33 @@ func tagKT() gen2.KT[Tag] {
 	return k
 }
 
+// Labelled is a custom typeref over string whose registered equality is coarser than Go's ==: the label is local
+// bookkeeping of the caller, it is neither sent nor compared.
+type Labelled struct{ S, Label string }
+
+func labelledKT() gen2.KT[Labelled] {
+	base := gen2.StringKT()
+	n := 0
+	k := gen2.KT[Labelled]{
+		Name: "custom-typeref-coarse-equality",
+		Pool: func(rng *rand.Rand, cnt int) []Labelled {
+			var out []Labelled
+			for _, s := range base.Pool(rng, cnt) {
+				n++
+				out = append(out, Labelled{s, fmt.Sprintf("caller-%d", n)})
+			}
+			return out
+		},
+		Canon:    func(t Labelled) string { return base.Canon(t.S) }, // what travels; the caller's own value is the map key looked up
+		KeyCanon: func(t Labelled) string { return base.KeyCanon(t.S) },
+		Tree:     func(t Labelled) any { return t.S },
+		FromTree: base.FromTree,
+		Twin:     func(t Labelled, rng *rand.Rand) (Labelled, bool) { return Labelled{t.S, t.Label + "-twin"}, true },
+		Hash:     func(t Labelled) uint32 { return uint32(fnv1a.HashString(t.S).MapKey()) },
+	}
+	return k
+}
+
 func main() {
 	log.SetOutput(io.Discard)
 	run := ev.Start("C16")
@@ -63,8 +91,15 @@ func main() {
 		func(t Tag) fnv1a.Hash { return fnv1a.HashString(t.S) },
 		func(a, b Tag) bool { return a == b },
 	)
+	restlicodec.RegisterCustomTyperef(
+		func(t Labelled) (string, error) { return t.S, nil },
+		func(s string) (Labelled, error) { return Labelled{S: s}, nil },
+		func(t Labelled) fnv1a.Hash { return fnv1a.HashString(t.S) },
+		func(a, b Labelled) bool { return a.S == b.S },
+	)
 	gen2.RunAll(run, rng, cases)
 	gen2.RunType(run, rng, tagKT(), cases)
+	gen2.RunType(run, rng, labelledKT(), cases/2)
 	gen2.RunGenerated(run, rng, cases)
 	gen1.RunAll(run, rng, cases)
 	gen1.RunGenerated(run, rng, cases)
